@@ -159,6 +159,12 @@ class CHECK(Check):
             'select c1 from c2 union select c3 from c4',
             'create table c1 (select c2 from c3)',
             'insert into c1 select c2 from c3',
+            # structurally equal siblings (the replaced one must be found by identity, not by equality)
+            'select c1, c2, c1 from c3', 'select null, c1, null from c2', 'select 1, 1, 1 from c1', 'select c1 from c2 where c3 = 1 and c3 = 1',
+            'insert into c1 (a, b) values (1, 1), (1, 1)', 'select f(c1, c1), g(2, 2) from c3', 'select c1 from c2 group by c3, c3 order by c4, c4',
+            'select c1 from c2 where c3 in (1, 1, 1)', 'select case when c1 = 1 then 2 when c1 = 1 then 2 else 2 end from c3', 'select c1 from c2 join c2 on c3 = c3',
+            'select c1 from c2 union select c1 from c2', 'select (select 1), (select 1) from c1', 'select c1 from c2 where c1 between 1 and 1',
+            "insert into c1 (a, b) values (?, 'x'), (3, 'y')", "insert into c1 (a, b) values (1, 2), (?, ?), (5, 6)", 'select ?, 1, ? from c1',
         ]
         for d in gsx.DIALECTS:
             for t in extra:
